@@ -79,6 +79,17 @@ def run_check(pid, files, tier="quick", seed=0, quiet=False, out=sys.stdout, wri
         ctx.tier = tier
         ctx.seed = seed
         reg[pid](ctx, rep)
+        # the verdict is about the program Python runs only if the consulted modules stay inside the modelled language
+        from . import integrity
+        consulted = set()
+        for q in list(getattr(ctx.A, "_fp", {})):
+            f = ctx.p.functions.get(q)
+            if f is not None:
+                consulted.add(f.module.name)
+        for k in list(getattr(ctx.folder, "_cache", {}) or {}):
+            if isinstance(k, tuple) and len(k) == 3 and k[0] == "mod":
+                consulted.add(k[1])
+        integrity.check(ctx, rep, pid, consulted)
         fns = ctx.p.all_functions()
         rep.stat("package_functions", len(fns))
         if ctx._G is not None:
